@@ -28,7 +28,7 @@ echo "--- demo on clean tree (must pass):"; rundemo "$d/clean" | cut -c1-200
 rm -rf "$d/mut/zz_demo" "$d"/mut/jen/zz_*
 echo "--- jenlint on changed tree ($prop):"
 if [ "$prop" = all ]; then
- JENLINT_REPO="$d/mut" /verif/bin/jenlint keys 2>&1 | grep -v "^discharged\|^info" | grep -v "P-MAPRANGE | (jen.Dict).[A-Za-z]* | range over recv: call invoke\|P-MAPRANGE | (jen.Dict).[A-Za-z]* | range over recv: slice collected across iterations ([A-Za-z]*) is sorted by a key two entries may share" | sed "s#$d/mut/##g" | cut -c1-${CUT:-420}
+ JENLINT_REPO="$d/mut" /verif/bin/jenlint keys 2>&1 | grep -v "^discharged\|^info" | grep -v "P-MAPRANGE | (jen.Dict).[A-Za-z]* | range over recv: call invoke.render on the range key\|P-MAPRANGE | (jen.Dict).[A-Za-z]* | range over recv: slice collected across iterations ([A-Za-z]*) is sorted by a key two entries may share" | sed "s#$d/mut/##g" | cut -c1-${CUT:-420}
 else
  JENLINT_REPO="$d/mut" JENLINT_VERIF=$d/ev /verif/bin/jenlint check $prop 2>&1 | sed "s#$d/mut/##g" | cut -c1-${CUT:-420}
 fi
